@@ -5,6 +5,7 @@ import (
 	"bytes"
 	"crypto/sha256"
 	"encoding/hex"
+	"errors"
 	"fmt"
 	"io"
 	"io/fs"
@@ -21,6 +22,7 @@ import (
 	"github.com/google/go-containerregistry/pkg/v1/types"
 	"github.com/google/osv-scalibr/artifact/image/layerscanning/image"
 	"github.com/google/osv-scalibr/artifact/image/require"
+	scalibrtar "github.com/google/osv-scalibr/artifact/image/tar"
 	"github.com/google/osv-scalibr/artifact/image/unpack"
 	"verif/ev"
 )
@@ -64,6 +66,8 @@ func (e entry) String() string {
 	n := strings.ReplaceAll(e.Name, longSeg, "<a*300>")
 	t := strings.ReplaceAll(e.Target, longSeg, "<a*300>")
 	switch e.Kind {
+	case "!":
+		return "<layer stream " + e.Name + ">"
 	case "f":
 		return fmt.Sprintf("reg %q", n)
 	case "d":
@@ -97,7 +101,7 @@ func entriesOver(names, targets []string) []entry {
 
 // imgCase is one image (layer list) run through one entry point with one configuration.
 type imgCase struct {
-	EP     string    `json:"ep"`  // v1 | tarball | squashed | raw
+	EP     string    `json:"ep"`  // v1 | tarball | squashed | raw | save
 	Cfg    int       `json:"cfg"` // index into the entry point's configuration table
 	Layers [][]entry `json:"layers"`
 	// Dir selects how the unpack target is spelled ("" = S/out, absolute and clean; anything else =
@@ -204,6 +208,8 @@ var layerCfgs = []scanCfg{
 
 func cfgName(ep string, i int) string {
 	switch ep {
+	case "save":
+		return "-"
 	case "v1", "tarball":
 		if i >= 0 && i < len(layerCfgs) {
 			return layerCfgs[i].Name
@@ -235,6 +241,26 @@ func payload(e entry) []byte {
 // layerTar serialises entries as a raw tar stream. ok=false if archive/tar cannot encode an entry
 // (the case is then outside the space of tar streams and is skipped).
 func layerTar(es []entry) (b []byte, ok bool) {
+	// A leading pseudo entry of kind "!" damages the stream built from the remaining entries:
+	// "garbage" = bytes that are no tar archive, "truncated" = the archive cut inside its first file.
+	// ("unreadable" is handled by the layer object: its Uncompressed() fails.)
+	if len(es) > 0 && es[0].Kind == "!" {
+		rest := es[1:]
+		if len(rest) == 0 {
+			rest = []entry{{Name: "a", Kind: "f"}}
+		}
+		good, ok := layerTar(rest)
+		if !ok {
+			return nil, false
+		}
+		switch es[0].Name {
+		case "garbage":
+			return bytes.Repeat([]byte("not a tar archive. "), 80), true
+		case "truncated":
+			return good[:min(len(good), 700)], true
+		}
+		return good, true
+	}
 	var buf bytes.Buffer
 	tw := tar.NewWriter(&buf)
 	for _, e := range es {
@@ -266,8 +292,9 @@ func layerTar(es []entry) (b []byte, ok bool) {
 
 // rawLayer is a minimal v1.Layer over an uncompressed tar.
 type rawLayer struct {
-	b []byte
-	h v1.Hash
+	b   []byte
+	h   v1.Hash
+	bad bool // Compressed()/Uncompressed() fail
 }
 
 func newRawLayer(b []byte) *rawLayer {
@@ -277,11 +304,20 @@ func newRawLayer(b []byte) *rawLayer {
 func (l *rawLayer) Digest() (v1.Hash, error) { return l.h, nil }
 func (l *rawLayer) DiffID() (v1.Hash, error) { return l.h, nil }
 func (l *rawLayer) Compressed() (io.ReadCloser, error) {
+	if l.bad {
+		return nil, errLayerUnreadable
+	}
 	return io.NopCloser(bytes.NewReader(l.b)), nil
 }
 func (l *rawLayer) Uncompressed() (io.ReadCloser, error) {
+	if l.bad {
+		return nil, errLayerUnreadable
+	}
 	return io.NopCloser(bytes.NewReader(l.b)), nil
 }
+
+var errLayerUnreadable = errors.New("c06: layer blob cannot be read")
+
 func (l *rawLayer) Size() (int64, error)                { return int64(len(l.b)), nil }
 func (l *rawLayer) MediaType() (types.MediaType, error) { return types.DockerUncompressedLayer, nil }
 
@@ -334,7 +370,9 @@ func buildLayers(layers [][]entry, shape string) (v1.Image, bool) {
 		if !ok {
 			return nil, false
 		}
-		ls = append(ls, newRawLayer(b))
+		l := newRawLayer(b)
+		l.bad = len(es) > 0 && es[0].Kind == "!" && es[0].Name == "unreadable"
+		ls = append(ls, l)
 	}
 	img, err := mutate.AppendLayers(empty.Image, ls...)
 	if err != nil {
@@ -365,6 +403,8 @@ func epLabel(ep string) string {
 		return "unpack-raw-tarball"
 	case "squashed":
 		return "unpack-squashed"
+	case "save":
+		return "save-tarball"
 	}
 	return "layerscan"
 }
@@ -501,16 +541,31 @@ func runImageCase(sb *sandbox, c imgCase) caseResult {
 		if c.EP == "raw" {
 			// the raw entry point takes a flat file-system tarball: all entries in order
 			var flat []entry
+			var damage *entry
 			for _, l := range c.Layers {
-				flat = append(flat, l...)
+				for _, e := range l {
+					if e.Kind == "!" {
+						if damage == nil {
+							d := e
+							damage = &d
+						}
+						continue
+					}
+					flat = append(flat, e)
+				}
 			}
-			b, ok := layerTar(flat)
-			if !ok {
-				res.Skipped = true
-				return res
+			if damage != nil {
+				flat = append([]entry{*damage}, flat...)
 			}
-			must(os.WriteFile(tarPath, b, 0o644))
-			base = withFile(sb.base, chain+"/in/image.tar", tarPath)
+			if damage == nil || damage.Name != "unreadable" { // "unreadable": the tarball does not exist
+				b, ok := layerTar(flat)
+				if !ok {
+					res.Skipped = true
+					return res
+				}
+				must(os.WriteFile(tarPath, b, 0o644))
+				base = withFile(sb.base, chain+"/in/image.tar", tarPath)
+			}
 		}
 		arg, out, outRel := sb.target(c.Dir)
 		var rerr error
@@ -542,8 +597,27 @@ func runImageCase(sb *sandbox, c imgCase) caseResult {
 				must(os.Mkdir(sb.dir("outer/out"), 0o755))
 			}
 			if c.EP == "raw" {
-				must(os.Remove(tarPath))
+				_ = os.Remove(tarPath)
 			}
+		}
+
+	case "save":
+		// scalibrtar.SaveToTarball(path, image): the designated location is exactly the file at path
+		dst := sb.dir("out/saved.tar")
+		var rerr error
+		p, stack := ev.Recover(func() { rerr = scalibrtar.SaveToTarball(dst, img) })
+		if p != nil {
+			res.Err = "panic: " + fmt.Sprint(p) + " at " + ev.PanicSite(stack)
+		} else if rerr != nil {
+			res.Err = rerr.Error()
+		}
+		after := snapshot(sb.R)
+		inside, outside := splitChanges(diff(base, after), chain+"/out/saved.tar")
+		res.Wrote = len(inside) > 0
+		report(classify(c.EP, c, outside, "after-return"))
+		hostCheck()
+		if !dirty && len(inside) > 0 {
+			sb.resetDir("out")
 		}
 
 	case "v1", "tarball":
